@@ -11,6 +11,7 @@ from typing import (
     Callable,
     Generic,
     Hashable,
+    List,
     Mapping,
     Optional,
     Sequence,
@@ -247,8 +248,15 @@ class CaseWhen(Generic[A, B], Evaluatable[B]):
         self.cases = [(condition, result) for condition, result in cases]
         self.default = default
 
-    def _evaluate(self, value: A, options: Options) -> Evaluatable[B]:
+    def _evaluate(
+        self,
+        value: A,
+        options: Options,
+        consulted: Optional[List[Evaluatable[Callable[[A], bool]]]] = None,
+    ) -> Evaluatable[B]:
         for condition, result in self.cases:
+            if consulted is not None:
+                consulted.append(condition)
             if condition.evaluate(options)(value):
                 return result
 
@@ -270,11 +278,26 @@ class CaseWhen(Generic[A, B], Evaluatable[B]):
 
     def keys(self, options: Options) -> Set[str]:
         """Return the option keys required by the case when statement."""
-        return self._bound(options).keys(options)
+        # the choice also depends on the conditions that were consulted to make it
+        consulted: List[Evaluatable[Callable[[A], bool]]] = []
+        bound = self.dispatch.bind(
+            functools.partial(self._evaluate, options=options, consulted=consulted)
+        )
+        keys = bound.keys(options)
+        return keys.union(*(condition.keys(options) for condition in consulted))
 
     def explain(self, options: Optional[Options] = None) -> Set[str]:
         """Return the option keys required by the case when statement."""
-        return self._bound(options or {}).explain(options)
+        consulted: List[Evaluatable[Callable[[A], bool]]] = []
+        bound = self.dispatch.bind(
+            functools.partial(
+                self._evaluate, options=options or {}, consulted=consulted
+            )
+        )
+        explained = bound.explain(options)
+        return explained.union(
+            *(condition.explain(options) for condition in consulted)
+        )
 
     @overload
     def when(
